@@ -612,11 +612,28 @@ func init() {
 		a, aok := args[0].([]value)
 		bb, bok := args[1].([]value)
 		if !aok || !bok {
-			// blobs: equal iff same tree object (conservative: otherwise unsupported)
+			// blobs: the serialisation of a JSON tree is injective (symbolic string
+			// leaves are assumed to need no escapes), so the byte strings are equal
+			// iff the trees are structurally equal with equal leaves
 			if args[0] == args[1] {
 				return true
 			}
-			panic(unsupported{"bytes.Equal on JSON blobs"})
+			ba, aIsBlob := args[0].(*blob)
+			bb2, bIsBlob := args[1].(*blob)
+			if aIsBlob && bIsBlob {
+				if ba == nil || bb2 == nil {
+					return ba.length(fr) == bb2.length(fr) && ba.length(fr) == 0
+				}
+				return mkval(jnodeEq(fr.i.path, ba.root, bb2.root), types.Bool)
+			}
+			// one side concrete bytes: compare texts when the blob is concrete
+			toBytes := func(v value) []value {
+				if bl, ok := v.(*blob); ok {
+					return strBytes(bl.asString())
+				}
+				return v.([]value)
+			}
+			return mkval(bytesEqTerm(fr.i.path.bank(), toBytes(args[0]), toBytes(args[1])), types.Bool)
 		}
 		return mkval(bytesEqTerm(fr.i.path.bank(), a, bb), types.Bool)
 	})
@@ -662,10 +679,101 @@ func init() {
 		}
 		return out
 	}
-	nativeStr("strings.Split", func(a []value) value { return strList(strings.Split(a[0].(string), a[1].(string))) })
-	nativeStr("strings.SplitN", func(a []value) value {
-		return strList(strings.SplitN(a[0].(string), a[1].(string), a[2].(int)))
-	})
+	// symStr registers a function that runs natively on concrete arguments and
+	// through a model on symbolic strings (forking on the byte comparisons)
+	symStr := func(name string, native func(args []value) value, model func(fr *frame, args []value) value) {
+		E(name, func(fr *frame, args []value) value {
+			for _, a := range args {
+				switch a.(type) {
+				case symstr, sym:
+					return model(fr, args)
+				}
+			}
+			return native(args)
+		})
+	}
+	isTrue := func(fr *frame, v value) bool {
+		if bv, ok := v.(bool); ok {
+			return bv
+		}
+		return fr.i.path.decide(v.(sym).t)
+	}
+	symStr("strings.TrimPrefix", func(a []value) value { return strings.TrimPrefix(a[0].(string), a[1].(string)) },
+		func(fr *frame, a []value) value {
+			s, pre := strBytes(a[0]), strBytes(a[1])
+			if isTrue(fr, hasPrefix(fr, s, pre)) {
+				return mkstr(s[len(pre):])
+			}
+			return a[0]
+		})
+	symStr("strings.TrimSuffix", func(a []value) value { return strings.TrimSuffix(a[0].(string), a[1].(string)) },
+		func(fr *frame, a []value) value {
+			s, suf := strBytes(a[0]), strBytes(a[1])
+			if isTrue(fr, hasSuffix(fr, s, suf)) {
+				return mkstr(s[:len(s)-len(suf)])
+			}
+			return a[0]
+		})
+	splitN := func(fr *frame, s, sep []value, n int) value {
+		if len(sep) == 0 {
+			panic(unsupported{"strings.Split with an empty separator on a symbolic string"})
+		}
+		var out []value
+		for n < 0 || len(out) < n-1 {
+			k := index(fr, s, sep, false).(int)
+			if k < 0 {
+				break
+			}
+			out = append(out, mkstr(s[:k]))
+			s = s[k+len(sep):]
+		}
+		return append(out, mkstr(s))
+	}
+	symStr("strings.Split", func(a []value) value { return strList(strings.Split(a[0].(string), a[1].(string))) },
+		func(fr *frame, a []value) value { return splitN(fr, strBytes(a[0]), strBytes(a[1]), -1) })
+	symStr("strings.SplitN", func(a []value) value { return strList(strings.SplitN(a[0].(string), a[1].(string), a[2].(int))) },
+		func(fr *frame, a []value) value {
+			n := int(fr.i.path.concInt(a[2], "strings.SplitN count"))
+			if n == 0 {
+				return []value(nil)
+			}
+			return splitN(fr, strBytes(a[0]), strBytes(a[1]), n)
+		})
+	asciiCase := func(upper bool) func(fr *frame, a []value) value {
+		return func(fr *frame, a []value) value {
+			p := fr.i.path
+			b := p.bank()
+			bs := strBytes(a[0])
+			out := make([]value, len(bs))
+			for k, c := range bs {
+				cs, ok := c.(sym)
+				if !ok {
+					ch := c.(uint8)
+					if upper && 'a' <= ch && ch <= 'z' {
+						ch -= 32
+					} else if !upper && 'A' <= ch && ch <= 'Z' {
+						ch += 32
+					}
+					out[k] = ch
+					continue
+				}
+				// symbolic bytes are assumed ASCII (added to the path condition)
+				p.assume(b.ULe(cs.t, b.BV(0x7f, 8)))
+				lo, hi, d := uint64('A'), uint64('Z'), b.BV(32, 8)
+				var t *Term
+				if upper {
+					lo, hi = 'a', 'z'
+					t = b.Ite(b.And(b.ULe(b.BV(lo, 8), cs.t), b.ULe(cs.t, b.BV(hi, 8))), b.Sub(cs.t, d), cs.t)
+				} else {
+					t = b.Ite(b.And(b.ULe(b.BV(lo, 8), cs.t), b.ULe(cs.t, b.BV(hi, 8))), b.Add(cs.t, d), cs.t)
+				}
+				out[k] = sym{t, types.Uint8}
+			}
+			return mkstr(out)
+		}
+	}
+	symStr("strings.ToLower", func(a []value) value { return strings.ToLower(a[0].(string)) }, asciiCase(false))
+	symStr("strings.ToUpper", func(a []value) value { return strings.ToUpper(a[0].(string)) }, asciiCase(true))
 	nativeStr("strings.Fields", func(a []value) value { return strList(strings.Fields(a[0].(string))) })
 	nativeStr("strings.Join", func(a []value) value {
 		var ss []string
@@ -678,11 +786,7 @@ func init() {
 		}
 		return strings.Join(ss, a[1].(string))
 	})
-	nativeStr("strings.ToLower", func(a []value) value { return strings.ToLower(a[0].(string)) })
-	nativeStr("strings.ToUpper", func(a []value) value { return strings.ToUpper(a[0].(string)) })
 	nativeStr("strings.TrimSpace", func(a []value) value { return strings.TrimSpace(a[0].(string)) })
-	nativeStr("strings.TrimPrefix", func(a []value) value { return strings.TrimPrefix(a[0].(string), a[1].(string)) })
-	nativeStr("strings.TrimSuffix", func(a []value) value { return strings.TrimSuffix(a[0].(string), a[1].(string)) })
 	nativeStr("strings.Trim", func(a []value) value { return strings.Trim(a[0].(string), a[1].(string)) })
 	nativeStr("strings.TrimLeft", func(a []value) value { return strings.TrimLeft(a[0].(string), a[1].(string)) })
 	nativeStr("strings.TrimRight", func(a []value) value { return strings.TrimRight(a[0].(string), a[1].(string)) })
